@@ -5,16 +5,28 @@ from ..gen import Opt, schema_lines, LIST, MULTI, TITLE, KEYSTRVAL, NOCASE
 from .C01 import hand_schemas
 
 THEOREMS = ["lex_line_count", "dqRun_line", "sqRun_line", "commentRun_line", "lineComment_line", "pstep_line",
-            "pstep_err_reported", "pstep_eof_reported", "pstep_nat", "C06_layout_independent", "C14_log_monotone"]
-PARTIAL = ("Proved: the scanner counts every newline exactly once on every path (lex_line_count, for inputs without '$': the body of a ${...} "
-           "substitution is the unspecified zone); every step of the token machine that keeps running leaves the current context on line + (scanner's "
-           "count), through section entry and exit (pstep_line); scanner errors and premature end of input fail the parse with a diagnostic naming the "
-           "current file and line; and the converse direction - positions are only ever reported, never acted on: the token machine commutes with the "
-           "erasure of every file name and line number (pstep_nat: 15 per-state lemmas through the store, the path resolver and the callbacks), so the "
-           "same tokens under ANY placement of newlines give the same acceptance, values at every depth, callback invocations and diagnostic classes "
-           "(C06_layout_independent). Not proved: that *every* rejecting path of the 15 states emits a diagnostic (checked on the implementation itself "
-           "by the oracle 'rc=1 => >=1 diagnostic', which found and fixed one silent path), and the restart at line 1 / restore on return for included "
-           "files at the level of the byte-level parse loop (modelled in parseLoop/doInclude, compared by the tie).")
+            "pstep_err_reported", "pstep_eof_reported", "pstep_nat", "C06_layout_independent", "C14_log_monotone",
+            "C06_rejection_reported", "C06_rejecting_step_reports", "C06_invariant_reachable", "C06_accepted_only_notices",
+            "C06_notice_needs_flag", "C06_resolver", "C06_include_reported", "C06_pop_source", "C06_include_restarts",
+            "C06_return_restores"]
+PARTIAL = ("Proved: (a) every rejection is reported - a token stream that takes the machine to 'rejected' has delivered at least one more diagnostic "
+           "or callback invocation than before the parse (C06_rejection_reported, from the per-step C06_rejecting_step_reports and the invariant "
+           "'the current option exists and is of the kind that led to this state', which holds in every reachable state: C06_invariant_reachable); the "
+           "one exemption is named in the statement: a function option declared with a NULL function, where the C library would call through the "
+           "pointer. The resolver part: it returns only references that exist, is silent when it resolves, and speaks when it does not unless the "
+           "context is IGNORE_UNKNOWN or free-form (C06_resolver). Every failure of include() reports (C06_include_reported). Proving this found two "
+           "silent/noisy paths in the real code (F31, F32; both reproduced and fixed). (b) the converse: a parse that does not end rejected has "
+           "delivered nothing but deprecation notices, and those only for a current option carrying the DEPRECATED flag (C06_accepted_only_notices, "
+           "C06_notice_needs_flag). (c) positions: the scanner counts every newline exactly once on every path (lex_line_count, for inputs without '$': "
+           "the body of a ${...} substitution is the unspecified zone); every running step leaves the current context on line + (scanner's count), "
+           "through section entry and exit (pstep_line); scanner errors and premature end of input name the current file and line; an included source "
+           "starts at line 1 under its own name and the loop goes on in the includer with the remembered name and line (C06_include_restarts, "
+           "C06_return_restores); and positions are only ever reported, never acted on: the token machine commutes with the erasure of every file "
+           "name and line number (pstep_nat), so the same tokens under ANY placement of newlines give the same acceptance, values, callback "
+           "invocations and diagnostic classes (C06_layout_independent). Not proved: 'no deprecated option anywhere in the schema => no notice' as a "
+           "whole-tree invariant (the local statement C06_notice_needs_flag is proved; the oracle 'rc=0 and no deprecated option => no diagnostic' "
+           "checks the rest on the implementation), and that the line reported for a *parser* diagnostic is the line the offending token ends on for "
+           "whole byte-level runs with includes (pstep_line per step; the tie compares file and line of the first diagnostic).")
 VARIANT = "asan"
 RULE = ("grammar-derived valid texts rendered with many newlines, #, //, /* */ (single/multi-line, empty) comments, multi-line and "
         "continued strings, 0-2 include levels; an error injected at a token position (wrong token, bad value, unknown name, cut); "
@@ -87,7 +99,7 @@ def generate(rng, tier):
     per = 60 if tier == "quick" else 150
     schemas = [with_include(s) for s in hand_schemas()]
     for _ in range(nschema):
-        schemas.append(with_include(gen.rand_schema(rng, p_flags=0.25)))
+        schemas.append(with_include(gen.rand_schema(rng, p_flags=0.25, allow=("int", "float", "bool", "str", "sec", "sec", "ptr"))))
     for opts in schemas:
         for _ in range(per):
             ctxflags = NOCASE if rng.random() < 0.2 else 0
